@@ -6,6 +6,8 @@ package main
 // hop(name): the hop-by-hop header names of RFC 7230 section 6.1 (taken from the property, not from the code).
 //@ pure hop(name string) bool = lower(name) == "connection" || lower(name) == "keep-alive" || lower(name) == "proxy-authenticate"
 //@   | || lower(name) == "proxy-authorization" || lower(name) == "te" || lower(name) == "trailer" || lower(name) == "transfer-encoding" || lower(name) == "upgrade"
+//@ pure tlen(m ref, t string) int = ite(in(t, m), len(asHeader(m)[t]), 0)
+//@ pure pk(t string) string = "Trailer:" + t
 //@ pure canonicalKeys(h ref) bool = forall_str(k, in(k, h) ==> canon(k) == k)
 
 //@ type proxy
@@ -29,7 +31,7 @@ package main
 // removed (C02); it is stored and enqueued under one and the same fresh id, once (C01, C04); the response
 // relayed to this client is the one received on this request's own rendezvous channel (C01, C03).
 //@ func (*proxy).ServeHTTP props(C01,C02,C03,C04,C07)
-//@   requires p != nil && w != nil && r != nil && r.Header != nil && canonicalKeys(r.Header) && p.requests != nil && p.randGenerator != nil
+//@   requires p != nil && w != nil && r != nil && r.Header != nil && canonicalKeys(r.Header) && p.requests != nil && p.randGenerator != nil && rwHeader[w] != nil
 //@   requires !held(p.Mutex) && p.requestIDs != nil && !closed(p.requestIDs)
 //@   ghost enq int = 0
 //@   ghost got ref = nil
@@ -52,8 +54,33 @@ package main
 //@   call (http.ResponseWriter).WriteHeader
 //@     assert[C01:own-response] arg0 == w && resp == got
 //@     assert[C03:status] arg1 == resp.StatusCode
+//@     assert[C03:end-to-end-headers-relayed-with-their-values] forall_str(k, in(k, resp.Header) && !hop(k) ==> in(k, asHeader(rwHeader[w])) && asHeader(rwHeader[w])[k] == resp.Header[k])
+//@     assert[C03:nothing-but-end-to-end-headers-added] forall_str(k, in(k, asHeader(rwHeader[w])) && !preOf(2, in(k, asHeader(rwHeader[w]))) ==> (in(k, resp.Header) && !hop(k)) || k == "Transfer-Encoding")
 //@   call io.Copy
 //@     assert[C01:own-body] arg0 == w && arg1 == resp.Body && resp == got
+//@   call (http.Header).Add
+//@     assert[C03:only-chunking-and-trailers-are-added] arg0 == asHeader(rwHeader[w]) && (inloop == 0 || inloop == 4)
+//@     |   && (inloop == 0 ==> arg1 == "transfer-encoding" && arg2 == "chunked")
+//@     |   && (inloop == 4 ==> arg1 == "Trailer:" + name && !hop(name) && in(name, resp.Trailer) && 0 <= idx && idx < len(resp.Trailer[name]) && arg2 == resp.Trailer[name][idx])
+//@   loop 2
+//@     assigns mapof(asHeader(rwHeader[w]))
+//@     invariant[C03:relay-h-state] resp == got && resp != nil && rwHeader[w] != nil && resp.Header != asHeader(rwHeader[w]) && resp.Trailer != asHeader(rwHeader[w])
+//@     invariant[C03:relay-h-dom] forall_str(k, in(k, asHeader(rwHeader[w])) <==> (pre(in(k, asHeader(rwHeader[w]))) || (visited[k] && !hop(k))))
+//@     invariant[C03:relay-h-vals] forall_str(k, visited[k] && !hop(k) ==> asHeader(rwHeader[w])[k] == resp.Header[k])
+//@     invariant[C03:relay-h-visited] forall_str(k, visited[k] ==> in(k, resp.Header))
+//@   loop 3
+//@     assigns mapof(asHeader(rwHeader[w]))
+//@     invariant[C03:relay-t-state] resp == got && resp != nil && rwHeader[w] != nil && resp.Header != asHeader(rwHeader[w]) && resp.Trailer != asHeader(rwHeader[w])
+//@     invariant[C03:relay-t-visited] forall_str(t, visited[t] ==> in(t, resp.Trailer))
+//@     invariant[C03:relay-t-counts] forall_str(t, tlen(asHeader(rwHeader[w]), pk(t)) == pre(tlen(asHeader(rwHeader[w]), pk(t))) + ite(visited[t] && !hop(t), tlen(resp.Trailer, t), 0))
+//@     invariant[C03:relay-t-headers-untouched] forall_str(k, !hasPrefix(k, "Trailer:") ==> (in(k, asHeader(rwHeader[w])) <==> pre(in(k, asHeader(rwHeader[w])))) && asHeader(rwHeader[w])[k] == pre(asHeader(rwHeader[w])[k]))
+//@   loop 4
+//@     assigns mapof(asHeader(rwHeader[w]))
+//@     invariant[C03:relay-v-state] resp == got && resp != nil && rwHeader[w] != nil && resp.Header != asHeader(rwHeader[w]) && resp.Trailer != asHeader(rwHeader[w]) && !hop(name) && visited[name] && in(name, resp.Trailer) && vals == resp.Trailer[name]
+//@     invariant[C03:relay-v-visited] forall_str(t, visited[t] ==> in(t, resp.Trailer))
+//@     invariant[C03:relay-v-others] forall_str(t, t != name ==> tlen(asHeader(rwHeader[w]), pk(t)) == preOf(3, tlen(asHeader(rwHeader[w]), pk(t))) + ite(visited[t] && !hop(t), tlen(resp.Trailer, t), 0))
+//@     invariant[C03:relay-v-this] tlen(asHeader(rwHeader[w]), pk(name)) == preOf(3, tlen(asHeader(rwHeader[w]), pk(name))) + idx + 1
+//@     invariant[C03:relay-v-headers-untouched] forall_str(k, !hasPrefix(k, "Trailer:") ==> (in(k, asHeader(rwHeader[w])) <==> preOf(3, in(k, asHeader(rwHeader[w])))) && asHeader(rwHeader[w])[k] == preOf(3, asHeader(rwHeader[w])[k]))
 
 // Agent side of the rendezvous (C01): a fetch serialises, and an upload is parsed against and delivered to,
 // exactly the pending entry stored under the request id the agent named; an upload is handed over at most once.
